@@ -150,6 +150,8 @@ func (cx *SpecCtx) sortOfVal(v sval) string {
 		return "(Array Int Bool)"
 	case "strmap":
 		return "(Array Int Str)"
+	case "realmap":
+		return "(Array Int Real)"
 	}
 	if v.typ != nil {
 		return cx.g.sc.sortOf(v.typ)
@@ -659,6 +661,15 @@ func (cx *SpecCtx) evalQuant(x *EQuant) sval {
 	var binds []string
 	var ranges []string
 	for _, qv := range x.Vars {
+		if qv.Type == "realmap" || qv.Type == "real" || qv.Type == "intmap" {
+			cx.depth++
+			name := fmt.Sprintf("%s!q%d", qv.Name, cx.g.sc.counter)
+			cx.g.sc.counter++
+			srt := map[string]string{"realmap": "(Array Int Real)", "real": "Real", "intmap": "(Array Int Int)"}[qv.Type]
+			binds = append(binds, fmt.Sprintf("(%s %s)", name, srt))
+			n.vars[qv.Name] = sval{t: name, kind: qv.Type, bound: true}
+			continue
+		}
 		t := cx.resolveType(qv.Type)
 		cx.depth++
 		name := fmt.Sprintf("%s!q%d", qv.Name, cx.g.sc.counter)
@@ -849,7 +860,7 @@ func (cx *SpecCtx) ghostField(st types.Type, name string) (key string, gt types.
 			qualified := strings.Contains(gf.Struct, ".") && typeName(st) == gf.Struct
 			if (local || qualified) && gf.Name == name {
 				key = "H:" + typeName(st) + "." + gf.Name
-				if gf.Type == "intmap" || gf.Type == "intset" || gf.Type == "strmap" {
+				if gf.Type == "intmap" || gf.Type == "intset" || gf.Type == "strmap" || gf.Type == "realmap" {
 					special = gf.Type
 				} else {
 					gt = cx.resolveType(gf.Type)
@@ -877,6 +888,9 @@ func (cx *SpecCtx) evalIndex(x *EIndex) sval {
 	}
 	if base.kind == "intset" {
 		return sval{t: fmt.Sprintf("(select %s %s)", base.t, cx.intTerm(x.I)), kind: "bool"}
+	}
+	if base.kind == "realmap" {
+		return sval{t: fmt.Sprintf("(select %s %s)", base.t, cx.intTerm(x.I)), kind: "real"}
 	}
 	if base.kind == "strmap" {
 		return sval{t: fmt.Sprintf("(select %s %s)", base.t, cx.intTerm(x.I)), typ: types.Typ[types.String], kind: "val"}
@@ -1004,6 +1018,19 @@ func (cx *SpecCtx) evalCall(x *ECall) sval {
 			k = cx.asValue(k)
 		}
 		return sval{t: fmt.Sprintf("(select %s %s)", g.get(cx.st, key), k.t), kind: "bool"}
+	case "arrayof": // arrayof(s): the whole backing array of slice s as a mathematical map (index = absolute position)
+		v := arg(0)
+		sl, ok := v.typ.Underlying().(*types.Slice)
+		if !ok {
+			cx.fail("arrayof on non-slice")
+		}
+		kind := "intmap"
+		if isFloat(sl.Elem()) {
+			kind = "realmap"
+		} else if _, isI := isInt(sl.Elem()); !isI {
+			cx.fail("arrayof: element type %s not supported", sl.Elem())
+		}
+		return sval{t: fmt.Sprintf("(select %s (s-arr %s))", g.get(cx.st, g.sc.elemComp(sl.Elem())), v.t), kind: kind}
 	case "strat": // strat(s, i): i-th byte of string s
 		sv := arg(0)
 		g.sc.declare("strat", "(declare-fun strat (Str Int) Int)")
@@ -1178,6 +1205,22 @@ func (cx *SpecCtx) evalCall(x *ECall) sval {
 		}
 		var sorts, ts []string
 		for i, prm := range uf.Params {
+			if prm.Type == "realmap" || prm.Type == "intmap" || prm.Type == "real" {
+				v := cx.eval(x.Args[i])
+				switch prm.Type {
+				case "realmap":
+					sorts = append(sorts, "(Array Int Real)")
+				case "intmap":
+					sorts = append(sorts, "(Array Int Int)")
+				default:
+					sorts = append(sorts, "Real")
+					if v.kind == "int" {
+						v = sval{t: fmt.Sprintf("(to_real %s)", v.t), kind: "real"}
+					}
+				}
+				ts = append(ts, v.t)
+				continue
+			}
 			pt := cx.resolveType(prm.Type)
 			v := cx.eval(x.Args[i])
 			if v.kind == "loc" {
@@ -1198,6 +1241,8 @@ func (cx *SpecCtx) evalCall(x *ECall) sval {
 			rs, rk = "Bool", "bool"
 		case "real":
 			rs, rk = "Real", "real"
+		case "realmap":
+			rs, rk = "(Array Int Real)", "realmap"
 		default:
 			rt = cx.resolveType(uf.Result)
 			rs, rk = g.sc.sortOf(rt), "val"
